@@ -198,3 +198,36 @@ func (c *Cluster) Closure(pktMax int, maxSweeps int, emit func(*Step)) {
 	c.Finish(end, false)
 	emit(end)
 }
+
+// AutoRounds: n periods in which every live node runs the code's own periodic round (gossipRound: the peers it
+// picks itself); every exchange it starts is then carried out in full (StartRound with the chosen peer, nothing
+// lost, everything fits). It ends with a ClosureEnd step that claims convergence: n is chosen so that on code
+// that keeps addressing every peer it knows (live or unreachable) the chance of a pair never exchanging is
+// negligible.
+func (c *Cluster) AutoRounds(n int, emit func(*Step)) {
+	c.Drain(BigPacket, emit)
+	for i := 0; i < n; i++ {
+		for _, a := range c.Order {
+			if c.live(a) == nil {
+				continue
+			}
+			g := c.GossipRound(a)
+			if g == nil {
+				continue
+			}
+			emit(g)
+			for _, b := range g.Fseq {
+				s := c.Round(a, b, BigPacket)
+				if s == nil {
+					continue
+				}
+				emit(s)
+				c.Drain(BigPacket, emit)
+			}
+		}
+	}
+	end := &Step{Op: "ClosureEnd", Kx: n, Flag: true, PktMax: 0, Thr: BigPacket}
+	end.Cmd = fmt.Sprintf(`["AutoRounds",%d]`, n)
+	c.Finish(end, false)
+	emit(end)
+}
